@@ -1,3 +1,5 @@
 SPECIFICATION FairSpec
-INVARIANTS LevelA AtExit
+INVARIANTS LevelA ExitNothingLeftBehind ExitAllTransmitted ExitErrsCounted ExitSpuriousError ExitOutCounted ExitDropsCounted ExitParseCounted ExitGaugeZero AtExit
 CHECK_DEADLOCK FALSE
+CONSTANTS
+  Record = FALSE
